@@ -16,12 +16,15 @@ CONSTANTS
  DevRepBeforePattern = FALSE
  DevLastOfName = FALSE
  DevNoAtomResname = FALSE
+ DevNonEdgeNoWide = FALSE
+ DevNonEdgeNoResname = FALSE
  DevOrderedPairs = FALSE
  DevGateOnce = FALSE
  DevGateStopsAtIgnored = FALSE
  DevSkipSameItp = FALSE
  DevGateBuildOnly = FALSE
  DevMissingCache = FALSE
+ DevMissingBeforeExplicit = FALSE
  DevDegree = FALSE
 INVARIANT FinalIsExpected
 CHECK_DEADLOCK FALSE
